@@ -30,8 +30,13 @@ META = {
             "connections by cause) reached with histories of up to 13 events over the alphabet user {alice, "
             "the empty user name} x service {ssh-connection, other} x {none->fail, password->fail/partial/success, publickey "
             "probe} plus pipelined bursts (username switch, extra credentials and a second service in flight "
-            "behind a failing request); thorough adds keyboard-interactive, info responses, signed publickey "
-            "requests, an unknown method, a third user (alice, bob, empty name) and longer bursts. The canonical "
+            "behind a failing request). Dimension 'path that produced each failure': next to the request path "
+            "(none, password) a failed attempt is also produced by a keyboard-interactive request the application "
+            "refuses outright, by an INFO_RESPONSE the application refuses (after a query or unsolicited; also in "
+            "flight behind a failing request), and by a gssapi-keyex request without a key-exchange GSS context "
+            "(GSS enabled in the application, stub context); all mixed freely up to the cap. thorough adds signed "
+            "publickey requests, an unknown method, partial/query answers to info responses, gssapi-keyex with a "
+            "context (valid / invalid MIC), a third user (alice, bob, empty name) and longer bursts. The canonical "
             "state carries, next to the server's own fields, the harness's count of failed attempts seen on the "
             "wire, and the user name the reference model has pinned (first name requested, whatever kind of answer the "
             "request got), so histories in which the server's counter drifts from the wire or the server's pinned "
@@ -44,6 +49,8 @@ META = {
 SC = "ssh-connection"
 EMPTY = ""
 PW = ("password", "plain")
+KI = ("keyboard-interactive", "-")
+GKX_NOCTX = ("gssapi-keyex", "noctx/valid")     # no GSS context from the key exchange: refused before the application
 PROBE = ("publickey", "ed25519/ssh-ed25519/probe")
 SIGNED = ("publickey", "ed25519/ssh-ed25519/valid")
 
@@ -76,14 +83,28 @@ def alphabet(tier):
         ("burst", (req(a, SC, PW, "F"), req(a, SC, PW, "S"))),
         ("burst", (req(a, "other-service", PW, "S"), req(a, SC, PW, "S"))),
     ]
+    # dimension "path that produced the failure": every way the server has to answer USERAUTH_FAILURE besides the
+    # tail of the request handler - the keyboard-interactive dialogue (request -> query -> INFO_RESPONSE, or an
+    # unsolicited INFO_RESPONSE: the server keeps no "query pending" state), a keyboard-interactive request refused
+    # outright, a gssapi-keyex request without a GSS context (early return inside the request handler), and an
+    # INFO_RESPONSE in flight behind a failing request.  (The gssapi-with-mic token/MIC handlers are unreachable
+    # through the wire on the shipped tree - see vmc/authfix.BoundGssHandler - and every failure there but an
+    # application refusal also raises, i.e. ends the connection.)
+    evs += [req(a, SC, KI, "Q"), req(a, SC, KI, "F"), req(a, SC, GKX_NOCTX, "F"),
+            ("iresp", "F"), ("iresp", "S"),
+            ("burst", (req(a, SC, PW, "F"), ("iresp", "S")))]
     b = users[1]
     if tier == "thorough":
         for u in users[:2]:
-            evs += [req(u, SC, ("keyboard-interactive", "-"), x) for x in "QF"]
+            if u != a:
+                evs += [req(u, SC, KI, x) for x in "QF"] + [req(u, SC, GKX_NOCTX, "F")]
             evs += [req(u, SC, SIGNED, x) for x in "SPF"]
             evs += [req(u, SC, ("hostbased", "-"), "F")]
-        evs += [("iresp", x) for x in "SPF"]
+            evs += [req(u, SC, ("gssapi-keyex", "ctx/valid"), x) for x in "SF"]
+            evs += [req(u, SC, ("gssapi-keyex", "ctx/invalid"), "S")]
+        evs += [("iresp", x) for x in "PQ"]
         evs += [
+            ("burst", (req(a, SC, KI, "Q"), ("iresp", "F"), ("iresp", "S"))),
             ("burst", (req(a, SC, PW, "F"), req(a, SC, PW, "F"), req(a, SC, PW, "S"))),
             ("burst", (req(a, SC, PW, "P"), req(b, SC, PW, "S"))),
             ("burst", (req(a, SC, PROBE, "S"), req(b, SC, SIGNED, "S"))),
@@ -92,13 +113,15 @@ def alphabet(tier):
     return evs
 
 
-DEAD_PROBES = [req("alice", SC, PW, "S"), req("bob", SC, PW, "S"), req(EMPTY, SC, PW, "S"),
+DEAD_PROBES = [req("alice", SC, PW, "S"), req("bob", SC, PW, "S"), req(EMPTY, SC, PW, "S"), ("iresp", "S"),
                ("burst", (req("alice", SC, PW, "F"), req("alice", SC, PW, "S")))]
 
 
 # canon: the server-side handlers branch only on AuthHandler.authenticated / auth_username /
 # auth_fail_count, Transport.active / _expected_packet and the installed handler object (always the plain
-# AuthHandler here - no GSS events in this alphabet); the application's answers are scripted per packet
+# AuthHandler here - gssapi-keyex is answered inside the request handler, there is no gssapi-with-mic event in
+# this alphabet; the key-exchange GSS context is (re)bound by each gssapi-keyex event itself and read by nothing
+# else; no "query pending" state exists on the server); the application's answers are scripted per packet
 # and the scripted application keeps no state, payload bytes (passwords, key blobs) are constants.  Two
 # histories that agree on these fields therefore have the same futures.  That argument trusts the
 # implementation's own bookkeeping, which is what the property is about; so the key ALSO contains the
@@ -236,7 +259,7 @@ def judge(hist, obs, acc):
 
 
 def run(hist):
-    obs = A.run_history(hist, gss=False)
+    obs = A.run_history(hist, gss=True)
     # the harness's own view of "the user name this connection is pinned to" (reference model: the name of the
     # first well-formed request, whatever the server answered - PK_OK, a query, partial success, failure);
     # part of the canonical state, see canon()
@@ -262,11 +285,14 @@ def main(tier):
         PID, tier, "model_checking",
         "one evaluation = one history executed on two live transports; nontrivial = distinct (clause exercised "
         "[username change / other service / cap reached / event on an ended connection] or plain event, "
-        "method+answer of each packet, same-user flag, pinned?, failure count before, authenticated before, "
-        "reply class)",
+        "method+answer of each packet [the method/kind is the path that produces the failure: request tail, "
+        "keyboard-interactive, info response, gssapi-keyex without context], same-user flag, pinned?, failure "
+        "count before, authenticated before, reply class)",
         ["server application answers are scripted per packet", "client side only transports harness-composed packets",
          "event mode: the server reacts completely to one packet / one pipelined burst before the next",
-         "failed attempts counted as non-partial USERAUTH_FAILURE messages sent by the server"])
+         "failed attempts counted as non-partial USERAUTH_FAILURE messages sent by the server",
+         "the application enables GSS-API; no GSS library is installed, the key-exchange GSS context is a stub "
+         "(vmc/authfix.StubGSS) or absent"])
     depth = 13 if tier == "quick" else 14
     out, acc = A.pbfs(run, make_enabled(tier), canon, judge, depth)
     ck.merge(acc)
